@@ -327,7 +327,7 @@ def soil_evaporation(
         comp_sto = np.sum(prof.dzsum < Soil_EvapZmin) + 1
         comp = -1
         # prof = Soil_Profile
-        while (ExtractPotStg1 > 0) and (comp < comp_sto):
+        while (ExtractPotStg1 > 0) and (comp < comp_sto - 1):
             # Increment compartment counter
             comp = comp + 1
             # Specify layer number
@@ -445,7 +445,7 @@ def soil_evaporation(
             comp_sto = np.sum(prof.dzsum < NewCond_EvapZ) + 1
             comp = -1
             # prof = Soil_Profile
-            while (ToExtractStg2 > 0) and (comp < comp_sto):
+            while (ToExtractStg2 > 0) and (comp < comp_sto - 1):
                 # Increment compartment counter
                 comp = comp + 1
                 # Specify layer number
